@@ -28,21 +28,40 @@ def signature(prog, what, det, side):
         sig["frame_kind"] = frame_kind(det, side.get("names"))
     return sig
 
-def run(rep, name, progs, dbset, relevant, target="sqlite"):
-    """Replay + validate `progs`; rejections whose kind is in `relevant` go to the report."""
+def run(rep, name, progs, dbset, relevant, target="sqlite", reduce_cap=60):
+    """Replay + validate `progs`; rejections whose kind is in `relevant` go to the report.
+    Rejected programs are first shrunk (lib/reduce.py) so that a known finding is recognised by
+    the features of the minimal failing program, not of whatever surrounded it."""
+    import reduce as red
     res = l1.run_and_validate(name, progs, dbset, target=target)
     byid = {p["id"]: p for p in progs}
     by_what = collections.Counter()
+    rel = []
     for pid, what, det in res["rejects"]:
         by_what[what] += 1
-        if what not in relevant:
-            continue
+        if what in relevant:
+            rel.append((pid, what, det))
+    reduced = {}
+    if rel:
+        todo = rel[:reduce_cap]
+        out = red.reduce_all(name, [(byid[pid], what) for pid, what, _ in todo], dbset, target=target)
+        for (pid, what, det), (p2, k2, side2) in zip(todo, out):
+            if side2 is not None:
+                reduced[pid] = (p2, side2)
+    for pid, what, det in rel:
         side = res["side"].get(pid, {})
-        sig = signature(byid[pid], what, det, side)
+        p_use, side_use = reduced.get(pid, (byid[pid], side))
+        sig = signature(p_use, what, det, side_use)
+        if pid not in reduced and len(rel) > reduce_cap:
+            # not reduced (cap): fall back to the features of the whole program
+            sig = signature(byid[pid], what, det, side)
         obj = {"property": rep.pid, "kind": what, "program": byid[pid], "prql": side.get("src"),
                "sql": side.get("sql"), "target": target, "dbset": os.path.relpath(dbset, ROOT),
-               "expected_frame": det, "observed_names": side.get("names"), "exec_error": side.get("exec_error"),
+               "expected_frame": det, "observed_names": side.get("names"), "rq_columns": side.get("rqcols"),
+               "exec_error": side.get("exec_error"),
                "panic": side.get("panic"), "compile_error": side.get("error"),
+               "reduced": ({"program": p_use, "prql": side_use.get("src"), "sql": side_use.get("sql"),
+                            "exec_error": side_use.get("exec_error")} if pid in reduced else None),
                "how_to_replay": f"bin/check {rep.pid} --replay <this file>"}
         rep.violation(obj, sig)
     res["by_what"] = dict(by_what)
